@@ -99,6 +99,8 @@ type Exec struct {
 	SS        *StoreState
 	EnvNondet []string
 	sigs      []sigEntry
+	LenientCalls map[string]int
+	regions   map[string]*Term
 }
 
 func newExec(L *Loaded, init *InitState, cfg *RunConfig, solver *Solver) *Exec {
@@ -277,6 +279,9 @@ func (e *Exec) callFunction(fn *ssa.Function, args []Value, binds []Value, site 
 			return v
 		}
 		if e.lenient {
+			if e.LenientCalls != nil {
+				e.LenientCalls[key]++
+			}
 			return e.zeroResult(fn.Signature)
 		}
 		where := ""
